@@ -22,6 +22,8 @@ the id of a resource the class's CONSTRUCTOR tracks through current_context.trac
 (["req", c, tgt, act, r, rc], ["raise", c, tgt, kind, rc], ["end", c, "cut", k, tgt, act, r, mode, rc]).
 act "stream": the method returns a generator (an item stream is registered in daemon.streaming_responses and left unexhausted).
 Optional case key "linger": value of config.ITER_STREAM_LINGER for the case (default 30.0; 0 = streams dropped at disconnect).
+Optional case key "hookfail": {"<c>": "<exception class name>"}: the daemon's clientDisconnect hook raises that exception for
+connection c (after the call has been counted).
 Optional case key "faulty": {"<r>": "<exception class name>"}: close() of resource r raises that exception (after counting).
 """
 import contextlib, os, struct, sys, threading, time
@@ -190,7 +192,14 @@ class World:
         self.srv = rd.Server(stype, commtimeout=(COMMTIMEOUT if timeout else None), pool_size=POOL, pool_min=1,
                              validator=validator)
         self.srv.start()
-        self.srv.daemon.clientDisconnect = lambda conn: world.log.append(("hook", world.by_id.get(id(conn))))
+        def hook(conn):
+            cid = world.by_id.get(id(conn))
+            world.log.append(("hook", cid))
+            nm = world.hook_fail.get(str(cid))
+            if nm:      # a user hook that fails for this connection: must not keep the daemon from releasing it
+                raise exc_class(nm)("clientDisconnect hook failed for connection %s" % cid)
+        self.hook_fail = {}
+        self.srv.daemon.clientDisconnect = hook
         self.srv.register(Sess, "S")
         self.srv.register(Plain(), "P")
         self.srv.register(Per, "C")
@@ -289,6 +298,7 @@ def run_case(world, case):
     _cfg.ITER_STREAM_LINGER = float(case.get("linger", 30.0))
     w.srv.daemon.streaming_responses.clear()      # streams left over by earlier cases play no role
     w.ctor_res = None
+    w.hook_fail = dict(case.get("hookfail") or {})
     w.conns.clear()
     w.by_id.clear()
     clients = {}                 # cid -> RawClient
